@@ -14,7 +14,7 @@ ASSUMPTIONS = ["numpy applied to one row at a time is the reference; NEP-50 prom
                "float alphabet: dyadic values and correctly-rounded ufuncs only (power / floor_divide / shifts on integers only)",
                "left_shift only with shift counts in [0, 7] (other counts are C-undefined)"]
 REQUIRED_FEATURES = ["empty_row", "zero_rows", "column_left", "column_right", "scalar_left", "must_refuse_shape",
-                     "sign_bit_column", "unary", "operator_form", "undefined_reference", "scalar_alphabet"]
+                     "sign_bit_column", "unary", "operator_form", "undefined_reference", "scalar_alphabet", "nan_comparisons"]
 BOUNDS = {"quick": "LV(3,2) (40 shapes) x 9x9 dtype pairs x 19 binary ufuncs x {same-shape ragged, numpy scalar L/R, 0-d array L/R, "
                    "(n,1) ndarray L/R} + Python int/float/bool L/R + (n,1) list-of-lists L/R + 3 mismatching ragged operands "
                    "+ 7 unary ufuncs + 17 Python operators; scalar alphabet {0,1,2,-1,2.0,0.5,1.0,False} as Python and as numpy scalars of 6 types x both sides x every binary ufunc / 6 operators; unary plus and abs(); one 16-row array for 3 dtypes",
@@ -80,6 +80,12 @@ def cases(shard, tier):
                     yield [lens, dt1, None, u, "salpha", side, k]
                 for op in ("**", "*", "+", "//", "&", "<"):
                     yield [lens, dt1, None, op, "op_salpha", side, k]
+    if dt1 in ("float64", "float32"):
+        # NaN cells under the six comparisons, operator and ufunc spelling (x >= y is not "not x < y" there)
+        for op in ("<", "<=", "==", "!=", ">", ">="):
+            for variant in ("scalar", "ragged", "column"):
+                for side in "LR":
+                    yield [lens, dt1, None, op, "nan_cmp", side, variant]
     for bad in ("diff_same_total", "diff_total", "diff_rows"):
         for u in ("add", "less", "logical_and", "maximum"):
             yield [lens, dt1, dt1, u, bad, "R", 1]
@@ -92,9 +98,42 @@ def _other_flat(dt2, size, p, u):
     return v
 
 
+NAN_UFUNC = {"<": "less", "<=": "less_equal", "==": "equal", "!=": "not_equal", ">": "greater", ">=": "greater_equal"}
+
+
+def _check_nan_cmp(case, acc):
+    from npstructures import RaggedArray
+    lens, dt1, _, op, _, side, variant = case
+    n, size = len(lens), sum(lens)
+    acc.feature("nan_comparisons")
+    flat = np.array(([1.5, float("nan"), 0.25, -2.0, float("nan"), 4.0, 1.0, float("nan")] * (size // 8 + 1))[:size], dtype=dt1)
+    rows = dsl.split_rows(flat, lens)
+    if variant == "scalar":
+        other, orows = 1.0, [1.0] * n
+    elif variant == "ragged":
+        of = np.array(([1.5, 1.0, float("nan"), -2.0, float("nan"), 0.0, 2.0, 1.0] * (size // 8 + 1))[:size], dtype=dt1)
+        other, orows = RaggedArray(of.copy(), list(lens)), dsl.split_rows(of, lens)
+    else:
+        cv = np.array(([1.0, float("nan"), -2.0, 4.0] * (n // 4 + 1))[:n], dtype=dt1)
+        other, orows = cv[:, None].copy(), [cv[i] for i in range(n)]
+    if size:
+        acc.nontrivial()
+    for spelling, f in (("operator", OPERATORS[op]), ("ufunc", getattr(np, NAN_UFUNC[op]))):
+        args = (lambda x, o: (x, o)) if side == "R" else (lambda x, o: (o, x))
+        with np.errstate(all="ignore"):
+            exp = R([f(*args(rows[i], orows[i])) for i in range(n)], dtype="bool")
+        obs = observe(lambda: f(*args(RaggedArray(flat.copy(), list(lens)), other)), dt=True)
+        acc.trans()
+        acc.outcome(obs)
+        if obs != exp:
+            acc.fail("wrong-values" if not is_refused(obs) else "valid-operands-refused", exp, obs, note=spelling)
+
+
 def check(case, acc):
     from npstructures import RaggedArray
     lens, dt1, dt2, u, kind, side, p = case
+    if kind == "nan_cmp":
+        return _check_nan_cmp(case, acc)
     n, size = len(lens), sum(lens)
     if n == 0:
         acc.feature("zero_rows")
